@@ -108,6 +108,9 @@ def c04(ctx):
     # 4. one ManifestFile object loaded several times: entries and signed state are those of the load just performed,
     #    also when that load failed (nothing of an earlier, authenticated text may vouch for the new entries)
     c05_histories(ctx, r, quick)
+    # 5. signed sub-Manifests inside a tree, read through the recursive loader
+    import p_c14
+    p_c14.signed_sub_engine(ctx)
 
 
 MUT_LINES = ['', ' ', 'DATA injected 1', BEGIN, SIGBEGIN, END, 'Hash: SHA1', '- DATA esc 2', 'Comment: x', '-----FOO-----']
@@ -345,6 +348,9 @@ def c05(ctx):
         iso.close()
     c05_histories(ctx, r, quick)
     c05_gpg(ctx, r, quick)
+    # signed sub-Manifests inside a tree: every other outcome than a good signature raises, wherever the Manifest sits
+    import p_c14
+    p_c14.signed_sub_engine(ctx)
 
 
 class ScriptedEnv:
